@@ -543,6 +543,94 @@ fn degenerate_case(ctx: &mut Ctx) {
 	}
 }
 
+/// (a) a spatialization strength that is LINKED (modulator + mapping whose output range leaves 0..1) is clamped like a fixed one:
+///     the scene renders exactly like the same scene with the clamped fixed strength;
+/// (b) what a spatial track sends to a send track is the spatialized signal: beyond the maximum distance / without listener
+///     nothing arrives there either, in between it carries the same attenuation and ear gains.
+fn linked_strength_and_sends_case(ctx: &mut Ctx) {
+	use kira::modulator::tweener::TweenerBuilder;
+	use kira::track::SendTrackBuilder;
+	for epos in [[-3.0, 0.0, -1.0], [2.0, 1.0, 0.5], [0.0, 0.0, -4.0]] {
+		for lq in [QID, axis_angle([0.0, 1.0, 0.0], 90.0)] {
+			for (out_range, at) in [((0.0f32, 2.0f32), 1.0f64), ((0.0, 2.0), 0.25), ((-1.0, 1.0), 0.25), ((0.5, 3.0), 0.5)] {
+				let mapped = out_range.0 as f64 + (out_range.1 - out_range.0) as f64 * at;
+				let sp = Sp { range: (1.0, 50.0), curve: Some(Easing::Linear), s: mapped.clamp(0.0, 1.0) as f32 };
+				let sc = Scene { lpos: [0.0, 0.0, 1.0], lq, epos, sp };
+				let mut c = Ctx::default();
+				let Some(want) = render(&sc, &mut c, "linked strength reference") else { continue };
+				ctx.evals += 1;
+				let r = catch(|| {
+					let mut m = mgr();
+					let tw = m.add_modulator(TweenerBuilder { initial_value: at }).expect("tweener");
+					let l = m.add_listener(mv(sc.lpos), mq(sc.lq)).expect("listener");
+					let strength: Value<f32> = Value::FromModulator { id: tw.id(), mapping: Mapping { input_range: (0.0, 1.0), output_range: out_range, easing: Easing::Linear } };
+					let b = SpatialTrackBuilder::new().sound_capacity(2).distances(sp.range).attenuation_function(sp.curve).spatialization_strength(strength);
+					let mut t = m.add_spatial_sub_track(&l, mv(sc.epos), b).expect("track");
+					t.play(input()).expect("play");
+					let mut out = vec![];
+					let r = pump(&mut m, 3, &mut out);
+					drop((t, l, tw));
+					r.map(|_| out)
+				});
+				match r {
+					Ok(Ok(out)) => {
+						let last = out[out.len() - 1];
+						if (last.0 as f64 - want.0).abs() > 1e-6 || (last.1 as f64 - want.1).abs() > 1e-6 || !last.0.is_finite() {
+							ctx.fail(
+								"ear gains leave [1 - strength, 1]: a spatialization strength linked to a modulator is not clamped to 0..1 like a fixed one :: linked strength".to_string(),
+								format!("strength = tweener at {} mapped to {:?} (= {}), expected like the fixed strength {}: {:?} vs {:?}; {}", at, out_range, mapped, sp.s, last, want, sc.desc()),
+							);
+						} else if last != (0.0, 0.0) {
+							ctx.nontrivial_extra += 1;
+						}
+					}
+					Ok(Err(p)) | Err(p) => ctx.fail(format!("panic: {} :: linked strength", p), sc.desc()),
+				}
+			}
+			// (b) sends
+			for (x, listener_alive) in [(60.0f64, true), (25.0, true), (3.0, true), (3.0, false)] {
+				let sp = Sp { range: (1.0, 50.0), curve: Some(Easing::Linear), s: 0.75 };
+				let sc = Scene { lpos: [0.0, 0.0, 1.0], lq, epos: [x, epos[1], 1.0 + epos[2]], sp };
+				let mut c = Ctx::default();
+				let Some(direct) = render(&sc, &mut c, "send reference") else { continue };
+				ctx.evals += 1;
+				let r = catch(|| {
+					let mut m = mgr();
+					let send = m.add_send_track(SendTrackBuilder::new()).expect("send");
+					let l = m.add_listener(mv(sc.lpos), mq(sc.lq)).expect("listener");
+					let mut t = m.add_spatial_sub_track(&l, mv(sc.epos), sp_builder(sc.sp).with_send(send.id(), Decibels::IDENTITY)).expect("track");
+					t.play(input()).expect("play");
+					let mut out = vec![];
+					let mut l = Some(l);
+					if !listener_alive {
+						l = None;
+					}
+					let r = pump(&mut m, 3, &mut out);
+					drop((t, l, send));
+					r.map(|_| out)
+				});
+				match r {
+					Ok(Ok(out)) => {
+						let last = out[out.len() - 1];
+						// direct path + send path, both spatialized; nothing at all once the listener is gone
+						let want = if listener_alive { (2.0 * direct.0, 2.0 * direct.1) } else { (0.0, 0.0) };
+						if (last.0 as f64 - want.0).abs() > 1e-6 || (last.1 as f64 - want.1).abs() > 1e-6 {
+							ctx.fail(
+								"what a spatial track feeds to a send track is not the spatialized signal (attenuation x ear gains; silent without listener) :: spatial track with a send".to_string(),
+								format!("spatial track routed to a plain send track at 0 dB, listener {}: output {:?}, expected direct + send = {:?} (the scene alone renders {:?}); {}", if listener_alive { "alive" } else { "dropped before the first callback" }, last, want, direct, sc.desc()),
+							);
+						} else if want != (0.0, 0.0) {
+							ctx.nontrivial_extra += 1;
+						}
+					}
+					Ok(Err(p)) | Err(p) => ctx.fail(format!("panic: {} :: spatial track with a send", p), sc.desc()),
+				}
+			}
+		}
+	}
+	ctx.outcome(hash64(&"linked strength and sends"));
+}
+
 // ---------------------------------------------------------------------------------------------
 // part C: listener histories
 
@@ -1573,7 +1661,10 @@ impl Check for C15 {
 				lattice_case(tier, ranges(tier)[range], listener_positions(tier)[lpos], on, q, aligned, ctx)
 			}
 			Case::Far { range } => far_case(tier, ranges(tier)[range], ctx),
-			Case::Degenerate => degenerate_case(ctx),
+			Case::Degenerate => {
+				degenerate_case(ctx);
+				linked_strength_and_sends_case(ctx);
+			}
 			Case::History(h) => history_case(h, ctx),
 			Case::Param(p) => param_case(p, ctx),
 			Case::Nesting(n) => nesting_case(tier, n, ctx),
